@@ -1,5 +1,5 @@
 (* Executable entry point for the C16 correspondence: the gather index. *)
-From Coq Require Import ZArith List.
+From Coq Require Import ZArith Bool List.
 From TS Require Import Base.F32 Model.Sampler.
 Import ListNotations.
 Local Open Scope Z_scope.
@@ -8,5 +8,24 @@ Local Open Scope Z_scope.
 Definition run_gather (l : list Z) : list Z :=
   match l with
   | [w; h; x; y] => [gather_ix (F32.of_bits x) (F32.of_bits y) w h]
+  | _ => [-3]
+  end.
+
+(* args: kind sw sh ox oy spread w h.  kind 0 = draw_pixmap(ox, oy) (the source rectangle clipped to the w x h
+   destination, Pad); kind 1 = Pattern(spread, translate(ox, oy)) filled over the whole destination.
+   Result: for every destination pixel, row-major, the source index read, or -1 where nothing is drawn. *)
+From TS Require Import Model.WideBackends Model.Nearest.
+Definition run_nearest_map (l : list Z) : list Z :=
+  match l with
+  | [kind; sw; sh; ox; oy; spread; w; h] =>
+      let tx := F32.of_Z ox in let ty := F32.of_Z oy in
+      let '(lft, rgt, top, bottom, spread) :=
+        if kind =? 0 then (Z.max ox 0, Z.min (ox + sw) w, Z.max oy 0, Z.min (oy + sh) h, 0)
+        else (0, w, 0, h, spread) in
+      concat (map (fun r =>
+        let dy := Z.of_nat r in
+        if (top <=? dy) && (dy <? bottom) && (lft <? rgt) then
+          repeat (-1) (Z.to_nat lft) ++ row_ix SSE2 spread sw sh tx ty lft rgt dy ++ repeat (-1) (Z.to_nat (w - rgt))
+        else repeat (-1) (Z.to_nat w)) (seq 0 (Z.to_nat h)))
   | _ => [-3]
   end.
